@@ -1,5 +1,5 @@
 #!/bin/sh
 # Regenerates the digests of vectors/sm3_openssl_long_zero.json with the OpenSSL command line tool (third-party oracle for C04).
-for n in 536870911 536870912 536870977 1073741827 4294967295 4294967296 4294967493; do
+for n in 268435455 268435456 268435521 536870911 536870912 536870977 1073741827 2147483708 2147483715 4294967295 4294967296 4294967493; do
   printf '%s ' $n; head -c $n /dev/zero | openssl dgst -sm3 | sed 's/.*= //'
 done
